@@ -221,14 +221,27 @@ def run(ctx):
             f = facts.fn(GS + "::" + m)
             eb = ExprBuilder(f)
             cs = f.calls_to(GSM + "::" + callee)
+            # or the iterator spelling: self.strats.iter().any(|s| s.is_match(..)) / .for_each(|s| s.matches_into(..))
+            adapters = [c for c in f.calls() if c.path in ("core::iter::traits::iterator::Iterator::any", "core::iter::traits::iterator::Iterator::for_each")
+                        and mentions_field(eb.operand(c.args[0]), GS, "strats")
+                        and not any(is_call(x, *("core::iter::traits::iterator::Iterator::" + a_ for a_ in
+                                                 ("take", "skip", "step_by", "filter", "take_while", "skip_while"))) for x in walk(eb.operand(c.args[0])))
+                        and any(x.k == "closure" and x[1] in facts.fns and facts.fns[x[1]].calls_to(GSM + "::" + callee)
+                                for x in walk(eb.operand(c.args[1])))]
             if len(cs) == 1 and cs[0].bb in C.reach_after(f, cs[0].bb) and \
                     mentions_field(eb.operand(cs[0].args[0]), GS, "strats"):
                 r.ok(m, "loops over self.strats calling %s" % callee, fn=f)
+            elif not cs and len(adapters) == 1:
+                r.ok(m, "self.strats.iter().%s(|s| s.%s(..))" % (adapters[0].path.split("::")[-1], callee), fn=f)
             else:
                 r.bad(m, "GlobSet::%s does not consult every strategy" % m, fn=f, construct=m)
         f = facts.fn(GS + "::is_match_candidate")
         cs = f.calls_to(GSM + "::is_match")
-        if cs:
+        eb_ = ExprBuilder(f)
+        anyc = [c for c in f.calls() if c.path == "core::iter::traits::iterator::Iterator::any" and mentions_field(eb_.operand(c.args[0]), GS, "strats")]
+        if not cs and anyc and mentions_call(eb_.local(0), "core::iter::traits::iterator::Iterator::any"):
+            r.ok("is_match_candidate|any", "Iterator::any over the strategies is the answer", fn=f)
+        elif cs:
             s = seed_after_call(f, cs[0], I(1))
             vals = {x for v_ in s.ret_values.values() for x in value_set(v_)}
             s0 = seed_after_call(f, cs[0], I(0), stop_blocks={h for _, h in C.back_edges(f)})
@@ -285,10 +298,30 @@ def run(ctx):
                 r.bad(key, "Glob::%s: the literal_separator test no longer rejects the wildcard on the %s edge" % (m, pol), fn=f,
                       construct=m)
         ms = facts.fn(MS + "::new")
+        # the Glob accessors in the order in which they are tried: calls of the function itself and, for a lazy
+        # `a().or_else(|| b()).or_else(|| c())` chain, the calls of each closure at the place where the closure is created
         order = []
-        for c in ms.calls():
-            if c.path.startswith(GLOB + "::"):
-                order.append(c.path.split("::")[-1])
+        clos = {g_.path: g_ for g_ in facts.closures_of(ms.path)}
+
+        def glob_calls(g_, depth=0):
+            out = []
+            events = []
+            for bb_, b_ in enumerate(g_.blocks):
+                if b_["cleanup"]:
+                    continue
+                for st_ in b_["stmts"]:
+                    if st_["k"] == "assign" and st_["rv"]["k"] == "agg" and st_["rv"].get("closure") in clos and depth < 3:
+                        events.append((bb_, "clo", st_["rv"]["closure"]))
+                t_ = b_["term"]
+                if t_["k"] == "call" and t_["func"]["path"].startswith(GLOB + "::"):
+                    events.append((bb_, "call", t_["func"]["path"].split("::")[-1]))
+            for bb_, kind, what in sorted(events, key=lambda e_: e_[0]):
+                if kind == "call":
+                    out.append(what)
+                else:
+                    out += glob_calls(clos[what], depth + 1)
+            return out
+        order = glob_calls(ms)
         want = ["basename_literal", "literal", "ext", "prefix", "suffix", "required_ext"]
         if order == want:
             r.ok("strategy-order", "MatchStrategy::new tries %s" % want, fn=ms, nontrivial=False)
